@@ -1259,6 +1259,7 @@ func runC07(c *cli.Ctx) error {
 	root := emit.NewRng(c.Seed)
 	rSeq, rMal, rStress, rUTF := root.Fork(), root.Fork(), root.Fork(), root.Fork()
 	rSched := root.Fork()
+	rLin := root.Fork()
 
 	w := emit.NewWriter(c.Out, "C07", "seq")
 	for i := 0; i < 600*c.Scale; i++ {
@@ -1312,5 +1313,8 @@ func runC07(c *cli.Ctx) error {
 	if err := w.Flush(); err != nil {
 		return err
 	}
-	return runSched(c, rSched)
+	if err := runSched(c, rSched); err != nil {
+		return err
+	}
+	return runStressLin(c, rLin)
 }
